@@ -443,6 +443,16 @@ impl Sched {
     }
 }
 
+/// While non-zero, every BANDHEAD an actor of a scheduled run writes is re-dated right after
+/// the write: its `start_time` is moved this many seconds into the past, as if the backup had
+/// been running that long (or its clock were that far behind). One case runs at a time in a
+/// process, so a global will do.
+static HEAD_AGE_S: std::sync::atomic::AtomicI64 = std::sync::atomic::AtomicI64::new(0);
+
+pub fn set_head_age(secs: i64) {
+    HEAD_AGE_S.store(secs, std::sync::atomic::Ordering::SeqCst);
+}
+
 impl Interceptor for ActorHook {
     fn before(&self, call: &Call<'_>) -> Action {
         let s = &self.sched;
@@ -506,8 +516,20 @@ impl Interceptor for ActorHook {
         }
     }
 
-    fn after(&self, _call: &Call<'_>, ok: bool) {
+    fn after(&self, call: &Call<'_>, ok: bool) {
         let s = &self.sched;
+        let age = HEAD_AGE_S.load(std::sync::atomic::Ordering::SeqCst);
+        if ok && age > 0 && V::from(call.verb) == V::Write && call.path.ends_with("/BANDHEAD") {
+            let p = s.root.join(&call.path);
+            if let Ok(bytes) = std::fs::read(&p) {
+                if let Ok(serde_json::Value::Object(mut m)) = serde_json::from_slice::<serde_json::Value>(&bytes) {
+                    if let Some(t) = m.get("start_time").and_then(|t| t.as_i64()) {
+                        m.insert("start_time".into(), serde_json::json!(t - age));
+                        let _ = std::fs::write(&p, serde_json::to_vec(&serde_json::Value::Object(m)).unwrap());
+                    }
+                }
+            }
+        }
         let mut st = s.st.lock().unwrap();
         if let Some((_, l)) = st.trace.iter_mut().rev().find(|(a, _)| *a == self.id) {
             l.ok = ok;
